@@ -160,6 +160,115 @@ theorem keyLe_antisymm (a b : String × AVal) : keyLe a b = true → keyLe b a =
 theorem Attr.key_inj {a b : Attr} (ha : a.named = true) (hb : b.named = true) (h : a.key = b.key) : a = b := by
   cases a <;> cases b <;> simp_all [Attr.key, Attr.named]
 
+/-! ### Namespace facts used by the emission theorems -/
+
+section
+variable {base : SigId → String}
+
+/-- Every requested object is named in the final namespace state. -/
+theorem runFromF_named {ns : NsF} : ∀ (reqs : List SigId) {s : SigId}, s ∈ reqs →
+    ∃ n, (runFromF base ns reqs).sigs.lookup s = some n := by
+  intro reqs
+  induction reqs generalizing ns with
+  | nil => intro s hs; simp at hs
+  | cons r rest ih =>
+    intro s hs
+    by_cases hsr : s = r
+    · subst hsr
+      obtain ⟨n, hn, -⟩ := getNameFixed_answer ns (base s) s
+      exact ⟨n, runFromF_keeps rest hn⟩
+    · rcases List.mem_cons.mp hs with h | h
+      · exact absurd h hsr
+      · exact ih h
+
+/-- All answers given for one object are the same identifier (repaired `get_name`). -/
+theorem answersFromF_functional (ns : NsF) (reqs : List SigId) (s : SigId) (a b : String)
+    (ha : (s, a) ∈ answersFromF base ns reqs) (hb : (s, b) ∈ answersFromF base ns reqs) : a = b := by
+  obtain ⟨n, hn, rfl⟩ := answersFromF_spec ns reqs s a ha
+  obtain ⟨m, hm, rfl⟩ := answersFromF_spec ns reqs s b hb
+  rw [hn] at hm
+  cases hm
+  rfl
+end
+
+/-! ### ClockSignal / ResetSignal resolution -/
+
+theorem resolve_clk_sound {cds : List Cd} {c : String} {i : Nat} (h : resolve cds (.clk c) = some i) :
+    ∃ d ∈ cds, d.name = c ∧ d.clk = i := by
+  simp only [resolve, Option.map_eq_some_iff] at h
+  obtain ⟨d, hd, rfl⟩ := h
+  exact ⟨d, List.mem_of_find?_eq_some hd, by simpa using List.find?_some hd, rfl⟩
+
+theorem resolve_rst_sound {cds : List Cd} {c : String} {i : Nat} (h : resolve cds (.rst c) = some i) :
+    ∃ d ∈ cds, d.name = c ∧ d.rst = some i := by
+  simp only [resolve, Option.bind_eq_some_iff] at h
+  obtain ⟨d, hd, hr⟩ := h
+  exact ⟨d, List.mem_of_find?_eq_some hd, by simpa using List.find?_some hd, hr⟩
+
+/-! ### IO naming step -/
+
+theorem ioOverride_idem (s : Sig) : ioOverride (ioOverride s) = ioOverride s := by
+  unfold ioOverride
+  cases ho : s.override with
+  | some o => simp [ho]
+  | none =>
+    cases hl : s.bt.getLast? with
+    | none => simp [ho, hl]
+    | some st =>
+      obtain ⟨n, k⟩ := st
+      by_cases hn : n = "" <;> simp [ho, hl, hn]
+
+theorem ioOverride_bt (s : Sig) : (ioOverride s).bt = s.bt ∧ (ioOverride s).duid = s.duid ∧
+    (ioOverride s).related = s.related := by
+  unfold ioOverride
+  cases ho : s.override with
+  | some o => simp
+  | none =>
+    cases hl : s.bt.getLast? with
+    | none => simp
+    | some st =>
+      obtain ⟨n, k⟩ := st
+      by_cases hn : n = "" <;> simp [hn]
+
+/-- The override after the step: kept when set, else the last back-trace name when that is non-empty. -/
+theorem ioOverride_override (s : Sig) :
+    (ioOverride s).override =
+      match s.override with
+      | some o => some o
+      | none => match s.bt.getLast? with
+        | some (n, _) => if n = "" then none else some n
+        | none => none := by
+  unfold ioOverride
+  cases ho : s.override with
+  | some o => simp [ho]
+  | none =>
+    cases hl : s.bt.getLast? with
+    | none => simp [ho]
+    | some st =>
+      obtain ⟨n, k⟩ := st
+      by_cases hn : n = "" <;> simp [ho, hn]
+
+theorem ioOverride_legal {s : Sig}
+    (h : s.bt ≠ [] ∧ (∀ st ∈ s.bt, isIdent st.1 = true) ∧ ∀ o, s.override = some o → isIdent o = true) :
+    (ioOverride s).bt ≠ [] ∧ (∀ st ∈ (ioOverride s).bt, isIdent st.1 = true) ∧
+      ∀ o, (ioOverride s).override = some o → isIdent o = true := by
+  rw [(ioOverride_bt s).1]
+  refine ⟨h.1, h.2.1, ?_⟩
+  intro o
+  rw [ioOverride_override]
+  cases ho : s.override with
+  | some o' => simp only [Option.some.injEq]; rintro rfl; exact h.2.2 _ ho
+  | none =>
+    cases hl : s.bt.getLast? with
+    | none => simp
+    | some st =>
+      obtain ⟨n, k⟩ := st
+      by_cases hn : n = ""
+      · simp [hn]
+      · simp only [hn, if_false, Option.some.injEq]
+        rintro rfl
+        exact h.2.1 (n, k) (List.mem_of_getLast? hl)
+
 /-! ### Legality of the generated base names -/
 
 theorem isIdent_append_chars {a : String} (ha : isIdent a = true) (r : String)
